@@ -78,21 +78,8 @@ class ExprMixin(object):
         raise EngineError('unmergeable values %r / %r' % (a, b))
 
     def join_hints(self, h1, h2):
-        if h1 is None or h2 is None:
-            return None
-        if h1.kind == 'none':
-            return TypeSpec(h2.kind, h2.classes, True, h2.elem)
-        if h2.kind == 'none':
-            return TypeSpec(h1.kind, h1.classes, True, h1.elem)
-        if h1.kind == h2.kind and h1.kind != 'obj':
-            if h1.kind == 'dict':
-                best = h1 if (h1.classes or h1.keyed or h1.elem is not None) else h2
-                return best.with_opt(h1.opt or h2.opt)
-            return TypeSpec(h1.kind, (), h1.opt or h2.opt, h1.elem if h1.elem is not None else h2.elem)
-        if h1.kind == 'obj' and h2.kind == 'obj':
-            cs = tuple(dict.fromkeys(h1.classes + h2.classes))
-            return TypeSpec('obj', cs, h1.opt or h2.opt)
-        return None
+        from .model import join_specs
+        return join_specs(h1, h2)
 
     def merge_glists(self, c, a, b):
         ea, eb = a.entries, b.entries
@@ -121,6 +108,12 @@ class ExprMixin(object):
         out.guard = Or(sa.guard, sb.guard)
         sel = sa.guard   # select sa's values when sa.guard holds (guards are exclusive)
         names = list(dict.fromkeys(list(sa.vars) + list(sb.vars)))
+        for n in names:
+            x, y = sa.vars.get(n, UNBOUND), sb.vars.get(n, UNBOUND)
+            if isinstance(x, V) and isinstance(y, (GList, PyTuple)):
+                sb.vars[n] = self.as_v(sb, y)
+            elif isinstance(y, V) and isinstance(x, (GList, PyTuple)):
+                sa.vars[n] = self.as_v(sa, x)
         for n in names:
             out.vars[n] = self.merge_values(sel, sa.vars.get(n, UNBOUND), sb.vars.get(n, UNBOUND))
         fields = list(dict.fromkeys(list(sa.heap) + list(sb.heap)))
@@ -317,15 +310,22 @@ class ExprMixin(object):
 
     def contains(self, st, container, item):
         """python `item in container`."""
+        # CPython evaluates `element == item` (the element is the left operand), after an identity test
+        def same(x):
+            try:
+                idt = self.identical(x, item)
+            except EngineError:
+                idt = z3.BoolVal(False)
+            return Or(idt, self.py_eq(st, x, item))
         if isinstance(container, PyTuple):
-            return Or(*[self.py_eq(st, item, x) for x in container.items])
+            return Or(*[same(x) for x in container.items])
         if isinstance(container, GList):
-            return Or(*[And(en.guard, self.py_eq(st, item, en.val)) for en in container.entries])
+            return Or(*[And(en.guard, same(en.val)) for en in container.entries])
         if isinstance(container, PyObj):
             o = container.o
             if isinstance(o, (dict, set, frozenset, list, tuple)):
                 keys = list(o)
-                return Or(*[self.py_eq(st, item, self.lift(k)) for k in keys])
+                return Or(*[same(self.lift(k)) for k in keys])
             raise EngineError('`in` on %r' % (o,))
         if isinstance(container, V):
             h = container.hint
@@ -563,6 +563,12 @@ class ExprMixin(object):
         return self.getattr(st, base, e.attr, getattr(e, 'lineno', 0))
 
     def getattr(self, st, base, name, line=0):
+        if isinstance(base, V) and name == '__class__':
+            return PyObj(('classof', base))
+        if isinstance(base, PyObj) and isinstance(base.o, tuple) and base.o and base.o[0] == 'classof' and name == '__name__':
+            uf = self.get_uf('class_name', IntS, StrS)
+            self.trust('obj.__class__.__name__: uninterpreted function of the class id')
+            return V(mkS(uf(cls_of(Val.r(base.o[1].t)))), parse_spec('str'))
         if isinstance(base, PyObj):
             o = base.o
             if isinstance(o, (dict, set, frozenset, list, tuple, str)) or not hasattr(o, name):
@@ -575,6 +581,8 @@ class ExprMixin(object):
         if isinstance(base, Closure):
             raise EngineError('attribute of closure')
         h = base.hint
+        if h is not None and h.kind == 'opaque':
+            return Bound(base, None, name)
         if h is not None and h.kind in ('str', 'list', 'dict', 'set', 'tuple'):
             if h.opt:
                 self.raise_exit(st, AttributeError, Val.is_N(base.t), line)
@@ -702,6 +710,11 @@ class ExprMixin(object):
             f = self.find_special(base, '__getitem__')
             if f is not None and not isinstance(f, list):
                 return self.call_function(st, f, [base, idx], {}, inline=True)
+        if h is None or h.kind in ('any', 'union'):
+            # dynamic: sequence semantics, anything else is reported as TypeError
+            ok = isinstance_term(base.t, (list, tuple))
+            self.raise_exit(st, TypeError, Not(ok), line)
+            return self.getitem(st, V(base.t, parse_spec('list')), idx, line)
         raise EngineError('subscript on value without static type (%r) line %s' % (h, line))
 
     def slice(self, st, base, sl, line):
@@ -738,10 +751,32 @@ class ExprMixin(object):
             return V(mkS(z3.SubString(s, a, ln)), parse_spec('str'))
         if h is not None and h.kind in ('list', 'tuple'):
             return self.list_slice(st, base, lo, hi)
+        if h is None or h.kind in ('any', 'union'):
+            ok = isinstance_term(base.t, (list, tuple))
+            self.raise_exit(st, TypeError, Not(ok), line)
+            return self.list_slice(st, V(base.t, parse_spec('list')), lo, hi)
         raise EngineError('slice on value without static type')
 
     def list_slice(self, st, base, lo, hi):
-        raise EngineError('slice of symbolic list (needs contract-level treatment)')
+        r = Val.r(base.t)
+        n = self.list_len(st, r)
+        self.assume(st, n >= 0)
+
+        def norm(x, default):
+            if x is None:
+                return default
+            i = Val.i(x.t)
+            i2 = z3.If(i < 0, n + i, i)
+            return z3.If(i2 < 0, z3.IntVal(0), z3.If(i2 > n, n, i2))
+        a = norm(lo, z3.IntVal(0))
+        b = norm(hi, n)
+        ln = z3.If(b > a, b - a, z3.IntVal(0))
+        nr = self.new_ref(st, list)
+        old = z3.Select(self.harr(st, '$ELEM'), r)
+        j = z3.Int('j!slice')
+        st.heap['$LEN'] = z3.Store(self.harr(st, '$LEN'), nr, ln)
+        st.heap['$ELEM'] = z3.Store(self.harr(st, '$ELEM'), nr, z3.Lambda([j], z3.Select(old, j + a)))
+        return V(mkR(nr), TypeSpec('list', (), False, base.hint.elem))
 
     def pydict_get(self, st, d, key, default, line=0, subscript=False):
         """Lookup of a symbolic key in a concrete python dict (e.g. ast.type_names)."""
